@@ -1,13 +1,83 @@
 (* C05 - rcu_list never frees an element a live handle may still reach.
-   Statements only; every proof is `exact <lemma>`. *)
+   Statements only; every proof is `exact <lemma>`.
+   Model: coq/Model/RcuModel.v ([init false] = the repaired source).  All theorems quantify over any
+   number of threads, any client programs over the rcu_guarded / rcu_list API and every schedule,
+   including spurious failures of the weak CAS (choice 3).  Client operations that make no sense (no
+   handle, unknown iterator slot, mutation through a read handle) are skipped by the model and by the
+   driver alike and touch nothing, so no well-formedness hypothesis is needed for safety. *)
 From Coq Require Import List Arith ZArith Lia Bool.
 Import ListNotations.
-From GV Require Import Sched Events RcuModel RcuBase RcuListProofs.
-Local Open Scope Z_scope.
+From GV Require Import Sched Events RcuModel RcuBase RcuListProofs RcuLogProofs RcuSafetyProofs.
 
-(* every node reference held by a thread (iterator slots, registers of the operation in progress) is a
-   node cell that was published: in the list, or erased from it - never a log record, never a node
-   that is still being constructed *)
-Theorem rcu_refs_are_published_nodes : forall unf progs s t l c,
-  R unf progs s -> nth_error (thr s) t = Some l -> In c (nrefs l) -> pubn (gl s) c.
-Proof. exact refs_published. Qed.
+(* The fault flag is set by: an access (atomic operation on a node / record field, read of an element)
+   to a cell whose allocator state is not Constructed, by an allocator call that is not the next one of
+   the cell's ledger (construct of a non-allocated cell, destroy of a non-constructed one, deallocate of
+   a non-destroyed one) and by destroy / deallocate of a null pointer.  It is never set. *)
+Theorem rcu_no_uaf : forall progs s, R false progs s -> fault (gl s) = false.
+Proof. exact no_fault. Qed.
+
+(* every node an iterator slot or a register of any thread refers to is a constructed node cell: an
+   iterator obtained through a live handle can always be dereferenced and advanced *)
+Theorem rcu_reachable_alive : forall unf progs s t l c,
+  R unf progs s -> nth_error (thr s) t = Some l -> In c (nrefs l) -> okn (gl s) c = true.
+Proof. exact reachable_alive. Qed.
+
+(* [covers g ls r k]: node k is in the list, or is being erased right now, or was erased and its log
+   record is newer than the registration record r.  While r is owned (its handle is alive) the next
+   pointer of a covered node leads to a covered, constructed node - whatever is erased concurrently *)
+Theorem rcu_covered_closed : forall unf progs s r k m, R unf progs s ->
+  inlog (gl s) r -> zown (gl s) r <> None -> covers (gl s) (thr s) r k -> nx (gl s) k = Some m ->
+  covers (gl s) (thr s) r m /\ okn (gl s) m = true.
+Proof. exact covered_closed. Qed.
+
+(* ... and what a thread refers to is covered by the thread's own record: see c_refs in InvC; the
+   consequence for reclamation: a node about to be destroyed is covered by no owned record, i.e. every
+   handle that was in use when it was erased has been released *)
+Theorem rcu_destroy_only_unprotected : forall unf progs s t l n d r, R unf progs s ->
+  nth_error (thr s) t = Some l -> at_ l = U_dd n (Some d) ->
+  inlog (gl s) r -> zown (gl s) r <> None -> ~ covers (gl s) (thr s) r d.
+Proof. exact destroy_only_unprotected. Qed.
+
+(* the log protocol: a releaser reclaims only when every record older than its own is unowned ... *)
+Theorem rcu_reclaim_needs_all_older_released : forall unf progs s t l n c, R unf progs s ->
+  nth_error (thr s) t = Some l -> region_pc (at_ l) = Some n ->
+  inlog (gl s) c -> zsq (gl s) c < zsq (gl s) (own_rec l) -> zown (gl s) c = None.
+Proof. exact reclaim_needs_all_older_released. Qed.
+(* ... hence at most one thread is reclaiming at any time ... *)
+Theorem rcu_single_reclaimer : forall unf progs s u v lu lv n m, R unf progs s ->
+  nth_error (thr s) u = Some lu -> nth_error (thr s) v = Some lv ->
+  region_pc (at_ lu) = Some n -> region_pc (at_ lv) = Some m -> u = v.
+Proof. exact single_reclaimer. Qed.
+(* ... and the record of a live registered handle is on the log, constructed and owned by it *)
+Theorem rcu_own_record_alive : forall unf progs s u w z, R unf progs s ->
+  hnd (locof (thr s) u) = Some (w, Some z) ->
+  In z (zlog (gl s)) /\ cs_of (gl s) z = Some Constr /\ zown (gl s) z = Some (guard_of u w).
+Proof. exact own_record_alive. Qed.
+(* the log is never walked after it was freed (the sub-protocol with nodes abstracted) *)
+Theorem rcu_no_uaf_log : forall unf progs s t l z,
+  R unf progs s -> nth_error (thr s) t = Some l -> rec_access l = Some z -> okz (gl s) z = true.
+Proof. exact no_uaf_log. Qed.
+
+(* ---------- non-vacuity ---------- *)
+(* thread 0 pushes 10, 20, 30 and releases; thread 1 registers and pauses on 20; thread 0 erases 20 and
+   releases; thread 2 registers after the erase and is in the middle of its release: it scans, finds
+   thread 1's record owned and does not reclaim.  Thread 1's iterator still refers to the erased,
+   constructed node. *)
+Definition ex_progs : list (list op) :=
+  [[LockWrite; PushBack 10; PushBack 20; PushBack 30; Release; LockWrite; Begin 0; Next 0; Erase 0; Release];
+   [LockRead; Begin 0; Next 0; Deref 0; Next 0; Deref 0; Release];
+   [LockRead; Begin 0; Release]].
+Definition ex_sched : list (nat * nat) :=
+  repeat (0, 0) 36 ++ repeat (1, 0) 10 ++ repeat (0, 0) 27 ++ repeat (2, 0) 15.
+Definition ex_state := run glob loc tstep (init false ex_progs) ex_sched.
+Example ex_paused_reader_protected :
+  lst (gl ex_state) = [1; 3] /\ dl (gl ex_state) 2 = true /\ cs_of (gl ex_state) 2 = Some Constr /\
+  (exists l, nth_error (thr ex_state) 1 = Some l /\ In 2 (nrefs l) /\ hnd l = Some (false, Some 4)) /\
+  (exists l, nth_error (thr ex_state) 2 = Some l /\ at_ l = U_sto) /\
+  covers (gl ex_state) (thr ex_state) 4 2 /\ fault (gl ex_state) = false.
+Proof.
+  vm_compute. repeat split; auto.
+  - eexists. split; [reflexivity|]. cbn. auto.
+  - eexists. split; reflexivity.
+  - right. right. exists 6. vm_compute. repeat split; auto; try discriminate.
+Qed.
